@@ -55,6 +55,7 @@ type c06Result struct {
 	Samples    []c06Case      `json:"samples,omitempty"`
 	SampleOut  []string       `json:"sample_outcomes,omitempty"`
 	Verdicts   []c06Verdict   `json:"verdicts,omitempty"`
+	Digest     uint64         `json:"digest"`
 }
 
 type c06Verdict struct {
@@ -275,6 +276,7 @@ func CheckC06(e *Env) (int, error) {
 	distinct, coldCases, coldProcs, maxSeededDistinct := 0, 0, 0, map[int]int{}
 	seamUnavailable := 0
 	var samples []interface{}
+	var od OrderedDigest
 	e.Logf("C06: %d jobs", len(jobs))
 	e.Parallel(len(jobs), func(i int) {
 		j := jobs[i]
@@ -299,6 +301,7 @@ func CheckC06(e *Env) (int, error) {
 			}
 			return
 		}
+		od.Add(i, r.Digest)
 		tot.Cases += r.Cases
 		tot.Reads += r.Reads
 		if r.MaxReads > tot.MaxReads {
@@ -370,6 +373,7 @@ func CheckC06(e *Env) (int, error) {
 		"by_word_count":       tot.ByN,
 		"max_reads_in_one_call": tot.MaxReads,
 		"raw_violations":      tot.ViolCount,
+		"outcome_digest":      od.String(),
 	}
 	if err := e.WriteEvidence("C06", "fault_enumeration", cov, []string{
 		"reference BIP39 encoder in /verif/ref over frozen word lists pinned by SHA-256 (validated against published vectors)",
